@@ -17,8 +17,7 @@ Definition bobs_eqb (a b : bobs) : bool :=
   | _, _ => false
   end.
 Definition request_eqb (a b : request) : bool :=
-  str_eqb (r_method a) (r_method b) && str_eqb (r_path a) (r_path b)
-  && list_eqb str_eqb (r_segs a) (r_segs b)
+  str_eqb (r_method a) (r_method b) && list_eqb str_eqb (r_segs a) (r_segs b)
   && kv_eqb (r_query a) (r_query b) && kv_eqb (r_headers a) (r_headers b)
   && kv_eqb (r_cookies a) (r_cookies b) && opt_eqb str_eqb (r_ctype a) (r_ctype b)
   && bobs_eqb (r_body a) (r_body b).
@@ -26,13 +25,13 @@ Definition obs_eqb : obs -> obs -> bool := opt_eqb request_eqb.
 
 (* httpx lower-cases header names on the wire *)
 Definition on_wire (r : request) : request :=
-  {| r_method := r_method r; r_path := r_path r; r_segs := r_segs r; r_query := r_query r;
+  {| r_method := r_method r; r_segs := r_segs r; r_query := r_query r;
      r_headers := map (fun kv => (map lower_ascii (fst kv), snd kv)) (r_headers r);
      r_cookies := r_cookies r; r_ctype := r_ctype r; r_body := r_body r |}.
 
 Definition model_obs (c : input) : obs :=
   let '(tbl, o, a) := c in option_map on_wire (call (mn_of tbl) o a).
-(* bits 1..5: the guards of C04_partial (F04b, F04c, F04d, F04f, F04i); bit 6: the call is NOT well typed (outside the theorem) *)
+(* bits 1..6: the guards of C04_partial (F04b, F04c, F04d, F04f, F04i, F04k); bit 7: the call is NOT well typed (outside the theorem) *)
 Definition guards_of (c : input) : list bool :=
   let '(tbl, o, a) := c in guards (mn_of tbl) o a ++ [well_typed (mn_of tbl) o a].
 
